@@ -406,12 +406,26 @@ func (c *Cluster) dagReplay(variants int) {
 	ref := c.newInstance("reference", "inmem", 10000)
 	defer ref.close()
 	window := 0
+	// rounds that the reference instance had decided while an earlier round was
+	// still open (they waited in the queue, decided)
+	c.refQueued = map[int]bool{}
 	for _, e := range base {
 		ref.insert(e)
 		if w := len(ref.h.UndeterminedEvents); w > window {
 			window = w
 		}
+		open := false
+		for _, pr := range ref.h.PendingRounds.GetOrderedPendingRounds() {
+			if !pr.Decided {
+				open = true
+			} else if open {
+				c.refQueued[pr.Index] = true
+			}
+		}
 		c.encodingChecksOnInsert(ref, e)
+	}
+	if len(c.refQueued) > 0 {
+		c.stats.probe("dagreplay-round-decided-behind-an-open-round")
 	}
 	if ref.err != nil {
 		c.stats.probe("dagreplay-reference-error")
@@ -428,8 +442,10 @@ func (c *Cluster) dagReplay(variants int) {
 	c.stats.probeMax("dagreplay-events-max", len(base))
 	c.encodingChecksFinal(ref)
 	for vi := 0; vi < variants; vi++ {
-		kind := []string{"order", "order", "subdag", "store", "cache", "batch", "delay", "delay", "smallbadger", "smallbadger", "latepass"}[r.Intn(11)]
-		if c.synthetic && r.Bool(0.5) {
+		kind := []string{"order", "order", "subdag", "store", "cache", "batch", "delay", "delay", "smallbadger", "smallbadger", "latepass", "heldwitness", "heldwitness"}[r.Intn(13)]
+		if len(c.refQueued) > 0 && vi < 3 {
+			kind = "heldwitness"
+		} else if c.synthetic && r.Bool(0.5) {
 			kind = "delay"
 			if c.cfg.Profile != "C01" && r.Bool(0.5) {
 				kind = "smallbadger"
@@ -523,7 +539,17 @@ func (c *Cluster) dagReplay(variants int) {
 		name = fmt.Sprintf("%s[%s cache=%d batch=%d latepass=%d events=%d/%d window=%d]", name, storeKind, cache, batch, latePass, len(order), len(base), window)
 		v := c.newInstance(name, storeKind, cache)
 		c.stats.probe("dagreplay-variant:" + kind)
+		if kind == "heldwitness" {
+			// one witness (and everything that descends from it) is withheld until
+			// its round has been decided without it while an earlier round is
+			// still open - the round then waits in the queue, decided, when the
+			// late witness arrives
+			order = c.heldWitnessInsert(r, ref, v, base)
+		}
 		for i, e := range order {
+			if kind == "heldwitness" {
+				break // (already inserted, online)
+			}
 			if latePass > 1 {
 				v.insertOnly(e)
 				v.divide()
@@ -731,4 +757,119 @@ func (in *instance) latePass() {
 		}
 	}
 	in.noteSetChanges()
+}
+
+// heldWitnessInsert feeds base to v in creation order, except that one witness
+// w of the reference (and its descendants) is held back until v has decided
+// w's round without it while an earlier round is still pending; failing that,
+// until w's round is decided at all; failing that, to the end. Returns the
+// order actually used.
+func (c *Cluster) heldWitnessInsert(r *RNG, ref, v *instance, base []*DagEvent) []*DagEvent {
+	cands := []*DagEvent{}
+	maxRound := 0
+	for _, e := range base {
+		if f, ok := ref.facts(e.Hash); ok && f.round > maxRound {
+			maxRound = f.round
+		}
+	}
+	for _, e := range base {
+		if f, ok := ref.facts(e.Hash); ok && f.witness && f.round >= 1 && f.round <= maxRound-2 {
+			cands = append(cands, e)
+		}
+	}
+	if len(c.refQueued) > 0 {
+		// witnesses of rounds that waited, decided, behind an open round
+		q := []*DagEvent{}
+		for _, e := range cands {
+			if f, _ := ref.facts(e.Hash); c.refQueued[f.round] {
+				q = append(q, e)
+			}
+		}
+		if len(q) > 0 {
+			cands = q
+			c.stats.probe("heldwitness-candidate-of-a-queued-round")
+		}
+	}
+	if len(cands) == 0 {
+		for _, e := range base {
+			v.insert(e)
+		}
+		return base
+	}
+	// prefer witnesses the rest of the network goes on without for a long time
+	// (events created later that do not descend from them)
+	type scored struct {
+		e    *DagEvent
+		free int
+	}
+	best := []scored{}
+	for _, cand := range cands {
+		d := map[string]bool{cand.Hash: true}
+		free := 0
+		seen := false
+		for _, e := range base {
+			if e == cand {
+				seen = true
+				continue
+			}
+			if d[e.SelfP] || d[e.OtherP] {
+				d[e.Hash] = true
+			} else if seen {
+				free++
+			}
+		}
+		best = append(best, scored{cand, free})
+	}
+	sort.SliceStable(best, func(i, j int) bool { return best[i].free > best[j].free })
+	if len(best) > 4 {
+		best = best[:4]
+	}
+	pick := best[r.Intn(len(best))]
+	w := pick.e
+	c.stats.probeMax("heldwitness-independent-later-events-max", pick.free)
+	fw, _ := ref.facts(w.Hash)
+	desc := map[string]bool{w.Hash: true}
+	held := []*DagEvent{}
+	used := []*DagEvent{}
+	released := false
+	release := func() {
+		released = true
+		for _, h := range held {
+			v.insert(h)
+			used = append(used, h)
+		}
+		held = nil
+	}
+	for _, e := range base {
+		if !released && (desc[e.Hash] || desc[e.SelfP] || desc[e.OtherP]) {
+			desc[e.Hash] = true
+			held = append(held, e)
+			continue
+		}
+		v.insert(e)
+		used = append(used, e)
+		if released || v.err != nil {
+			continue
+		}
+		decided, earlierOpen := false, false
+		for _, pr := range v.h.PendingRounds.GetOrderedPendingRounds() {
+			if pr.Index < fw.round && !pr.Decided {
+				earlierOpen = true
+			}
+			if pr.Index == fw.round && pr.Decided {
+				decided = true
+			}
+		}
+		if decided && earlierOpen {
+			c.stats.probe("heldwitness-round-decided-behind-an-open-round")
+			release()
+		} else if decided && r.Bool(0.15) {
+			c.stats.probe("heldwitness-round-decided")
+			release()
+		}
+	}
+	if !released {
+		release()
+	}
+	return used
 }
